@@ -207,7 +207,7 @@ def check_runtime_side(ctx, lib):
         for bb, i, s in b.stmts():
             if s["k"] == "assign" and s["rv"]["k"] == "agg" and s["rv"].get("adt") == "errors::JmespathError":
                 ctx.bad(rule, f"{d}:raw-aggregate", f"{d} builds a JmespathError directly", s["span"]["s"])
-    ctx.floor(rule, nfrom + nnew, 46, "error construction sites under the evaluator")
+    ctx.floor(rule, nfrom + nnew, 36, "error construction sites under the evaluator")
     ctx.analysed["from_ctx_sites"] = nfrom
     ctx.analysed["internal_conversion_error_sites"] = nnew
     fc = ctx.fn(FROM_CTX, rule=rule)
